@@ -304,6 +304,16 @@ func (r *FnRun) objLoad(st *State, addr *Term, t types.Type) Val {
 		}
 		return sv
 	}
+	if at, ok := t.Underlying().(*types.Array); ok {
+		if _, isBA := isByteArray(t); !isBA && at.Len() <= 16 {
+			sz := r.e.sizeof(at.Elem())
+			sv := StructV{T: t}
+			for i := int64(0); i < at.Len(); i++ {
+				sv.Fields = append(sv.Fields, r.objLoad(st, tb.Add(addr, tb.BVI(64, i*sz)), at.Elem()))
+			}
+			return sv
+		}
+	}
 	return r.heapLoadLeafs(st, "cell:"+typeKey(t), addr, t)
 }
 
@@ -324,6 +334,16 @@ func (r *FnRun) objStore(st *State, addr *Term, t types.Type, v Val) {
 			}
 		}
 		return
+	}
+	if at, ok := t.Underlying().(*types.Array); ok {
+		if _, isBA := isByteArray(t); !isBA && at.Len() <= 16 {
+			sz := r.e.sizeof(at.Elem())
+			sv := v.(StructV)
+			for i := int64(0); i < at.Len(); i++ {
+				r.objStore(st, tb.Add(addr, tb.BVI(64, i*sz)), at.Elem(), sv.Fields[i])
+			}
+			return
+		}
 	}
 	r.heapStoreLeafs(st, "cell:"+typeKey(t), addr, t, v)
 }
